@@ -25,8 +25,9 @@ enum Behaviour { B_WHOLE,
                  B_CLOSE_AFTER,
                  B_NEVER,  // never answered; the connection's later requests wait behind it (responses go in order)
                  B_DROP,   // never answered, the server goes on with the connection's later requests
-                 B_RESET_AFTER }; // answered whole, then the server aborts the connection (RST)
-static const char* kBehNames[] = { "whole", "two-pieces", "chunked", "whole-then-close", "never", "dropped", "whole-then-reset" };
+                 B_RESET_AFTER, // answered whole, then the server aborts the connection (RST)
+                 B_STALL };     // the first half of the response arrives, the rest never does
+static const char* kBehNames[] = { "whole", "two-pieces", "chunked", "whole-then-close", "never", "dropped", "whole-then-reset", "first-half-then-nothing" };
 
 struct Scenario
 {
@@ -35,9 +36,11 @@ struct Scenario
     std::vector<int> timeoutMs; // per request, 0 = none
     int D;
     bool fine = false; // requests are issued by gated harness threads that also park at every mutex acquisition
+    int warm  = 0;     // the first `warm` requests are issued together and completed (default order) before the
+                       // exploration starts: that many keep-alive connections are established and idle
     std::string str() const
     {
-        std::string s = std::string(fine ? "[fine-grained issue] " : "") + "threads=" + std::to_string(threads) + " maxConn=" + std::to_string(limit) + " requests=[";
+        std::string s = std::string(fine ? "[fine-grained issue] " : "") + (warm ? "[" + std::to_string(warm) + " connections established by earlier requests] " : std::string()) + "threads=" + std::to_string(threads) + " maxConn=" + std::to_string(limit) + " requests=[";
         for (int i = 0; i < n; ++i)
             s += std::string(i ? "," : "") + kBehNames[beh[i]] + (timeoutMs[i] ? "/timeout" + std::to_string(timeoutMs[i]) : "");
         return s + "] D<=" + std::to_string(D);
@@ -220,6 +223,13 @@ struct ScriptedServer
         int b      = sc.beh[tag];
         std::string rsp = response_for(tag, b == B_CHUNKED);
         static auto snd = sim::real<ssize_t (*)(int, const void*, size_t, int)>("send");
+        if (b == B_STALL)
+        {
+            size_t cut = rsp.size() / 2 + 3;
+            snd(c.fd, rsp.data(), cut, MSG_NOSIGNAL);
+            c.piecesSent = 99; // nothing more will come
+            return;
+        }
         if (b == B_PIECES || b == B_CHUNKED)
         {
             size_t cut = rsp.size() / 2 + 3;
@@ -248,7 +258,7 @@ struct ScriptedServer
     bool can_answer(size_t ci, const Scenario& sc)
     {
         const SrvConn& c = conns[ci];
-        return !c.closed && !c.pendingTags.empty() && sc.beh[c.pendingTags.front()] != B_NEVER;
+        return !c.closed && !c.pendingTags.empty() && sc.beh[c.pendingTags.front()] != B_NEVER && c.piecesSent != 99;
     }
     void stop()
     {
@@ -318,6 +328,49 @@ static Exec run_one(const Scenario& sc, const std::vector<uint8_t>& prefix, vr::
         auto detail = [&](const std::string& extra) {
             return "{\"scenario\":" + vr::jstr(sc.str()) + ",\"schedule\":" + vr::jstr(trace) + "," + extra + "}";
         };
+        if (sc.warm)
+        {
+            // warm-up, not part of the explored schedule: issue, then run everything in the default order
+            for (int w = 0; w < sc.warm; ++w)
+                do_issue(issued++);
+            for (int round = 0; round < 200; ++round)
+            {
+                sim::await_readiness(10);
+                bool did = false;
+                for (int a = 0; a < sc.threads && !did; ++a)
+                    if (sim::actor_ready(a))
+                    {
+                        sim::step_actor(a);
+                        did = true;
+                    }
+                if (!did && srv.can_accept())
+                {
+                    srv.accept_one();
+                    did = true;
+                }
+                for (size_t ci = 0; ci < srv.conns.size() && !did; ++ci)
+                    if (srv.can_read(ci))
+                    {
+                        srv.read_conn(ci);
+                        did = true;
+                    }
+                for (size_t ci = 0; ci < srv.conns.size() && !did; ++ci)
+                    if (srv.can_answer(ci, sc))
+                    {
+                        srv.answer_piece(ci, sc);
+                        did = true;
+                    }
+                sim::bump_activity();
+                bool all = true;
+                for (int w = 0; w < sc.warm; ++w)
+                    all &= obs[w].fulfilled == 1;
+                if (all && !did)
+                    break;
+            }
+            for (int w = 0; w < sc.warm; ++w)
+                if (obs[w].fulfilled != 1)
+                    throw sim::HarnessError { "warm-up request not fulfilled" };
+        }
         for (int point = 0; point < 300; ++point)
         {
             // enabled actions in canonical order
@@ -505,15 +558,36 @@ static Exec run_one(const Scenario& sc, const std::vector<uint8_t>& prefix, vr::
             for (auto& kv : client.pool.conns)
                 for (auto& c : kv.second)
                     idleConn |= c->isIdle() && c->isConnected();
-            bool queued = false;
+            bool queued   = false;
+            int inQueue   = 0;
             for (auto& kv : client.requestsQueues)
             {
                 std::shared_ptr<Http::Experimental::Connection::RequestData> data;
-                if (kv.second.dequeue(data))
+                while (kv.second.dequeue(data))
+                {
                     queued = true;
+                    ++inQueue;
+                }
             }
             if (queued && idleConn && x.ok)
                 ctx.violation("c15:queued-request-never-started-although-a-connection-is-idle", detail("\"x\":0"));
+            // everything is quiet: a request that is neither settled nor waiting in the client's queue has been handed
+            // to a connection, so the server must have seen it
+            int unsent = 0, firstUnsent = -1;
+            for (int i = 0; i < issued; ++i)
+                if (!obs[i].fulfilled && !obs[i].rejected && !srv.readAtTick.count(i))
+                {
+                    ++unsent;
+                    if (firstUnsent < 0)
+                        firstUnsent = i;
+                }
+            // (not when the server closes connections: a request written to a connection that the server has already
+            // closed goes nowhere, and the property says nothing about it)
+            bool serverCloses = false;
+            for (int i = 0; i < sc.n; ++i)
+                serverCloses |= sc.beh[i] == B_CLOSE_AFTER || sc.beh[i] == B_RESET_AFTER;
+            if (unsent > inQueue && x.ok && issuerActor.empty() && !serverCloses)
+                ctx.violation("c15:request-handed-to-a-connection-but-never-sent", detail("\"request\":" + std::to_string(firstUnsent) + ",\"unsent\":" + std::to_string(unsent) + ",\"in_client_queue\":" + std::to_string(inQueue)));
         }
         if (srv.peakOpen > sc.limit)
             ctx.violation("c15:more-connections-than-configured", detail("\"peak\":" + std::to_string(srv.peakOpen) + ",\"limit\":" + std::to_string(sc.limit)));
@@ -710,6 +784,37 @@ int main(int argc, char** argv)
                 }
             }
         }
+    // requests that reuse connections established (and idle) before: several of them between two reactor wake-ups
+    for (int threads : { 1, 2 })
+        for (int limit : { 1, 2 })
+            for (int extra = 2; extra <= 3; ++extra)
+            {
+                if (!thorough && (threads == 2 && limit == 1))
+                    continue;
+                Scenario s { threads, limit, limit + extra, {}, {}, maxD };
+                s.warm = limit;
+                for (int i = 0; i < s.n; ++i)
+                {
+                    s.beh.push_back(i % 2 ? B_PIECES : B_WHOLE);
+                    s.timeoutMs.push_back(0);
+                }
+                gScenarios.push_back(s);
+            }
+    // a response that starts in time and then stalls: the time-out covers the whole response, not its first byte
+    for (int threads : { 1, 2 })
+        for (int limit : { 1, 2 })
+            for (int n = 1; n <= 2; ++n)
+            {
+                if (!thorough && threads == 2 && limit == 2)
+                    continue;
+                Scenario s { threads, limit, n, {}, {}, maxD };
+                for (int i = 0; i < n; ++i)
+                {
+                    s.beh.push_back(i == 0 ? B_STALL : B_WHOLE);
+                    s.timeoutMs.push_back(i == 0 ? 1000 : 0);
+                }
+                gScenarios.push_back(s);
+            }
     // the server aborts the connection right after an answer while further requests wait for that connection
     for (int threads : { 1, 2 })
         for (int limit : { 1, 2 })
